@@ -726,9 +726,9 @@ def c_collect_lazymap(eng, st, fr, f, args, site):
     """collect() of `iter.map(closure)` over an iterator of unknown length, into Vec<_> or Result<Vec<_>, _>: the
     closure is analysed as the body of an abstract loop (states joined at the loop head until stable), so what it
     captures by reference carries an inductive invariant and its panic sites are checked in context."""
-    it = force(eng, st, args[0])
+    it = force(eng, st, args[0]) if not isinstance(args[0], Ref) else args[0]
     if not (isinstance(it, Cont) and it.kind == "iter:lazymap" and it.segs and it.segs[0][0] == "lazy"):
-        return None
+        return c_collect_local_iter(eng, st, fr, f, args, site)
     rt = ret_ty(eng, site)
     if rt is None:
         return None
@@ -781,6 +781,138 @@ def c_collect_lazymap(eng, st, fr, f, args, site):
     if kind:
         eng.declare(repr(vec.len), 0, eng.len_max)
     outs.append((cur, Enum(rt, ((0, (vec,)),), "collected") if is_res else vec))
+    return outs
+
+
+def local_iter_next(eng, st, v):
+    """(ref to the iterator object, body of its `next`, substitution) when v is — or refers to, through any number of
+    `&mut` — a value of a crate-local type with its own `impl Iterator`."""
+    r = v
+    for _ in range(4):
+        if isinstance(r, Ref):
+            inner = deref(eng, st, r)
+            if isinstance(inner, Ref):
+                r = inner
+                continue
+            obj = force(eng, st, inner)
+            break
+        else:
+            obj = force(eng, st, r)
+            if not isinstance(obj, Struct):
+                return None
+            loc = "obj:iter#%d" % eng._hv()
+            st.locs[loc] = obj
+            r = Ref(loc, (), True)
+            break
+    else:
+        return None
+    if not isinstance(obj, Struct) or not isinstance(obj.ty, int):
+        return None
+    t = eng.T.t(obj.ty)
+    if t["k"] != "adt":
+        return None
+    for (tr, selfs, name), path in eng.impl_index.items():
+        if name != "next" or not tr.endswith("iter::Iterator") or path not in eng.F.bodies:
+            continue
+        if selfs == t["path"] or selfs.startswith(t["path"] + "<"):
+            body = eng.F.bodies[path]
+            names = [g for g in (body.get("generics") or []) if not g.startswith("const ") and not g.startswith("'")]
+            targs = [a for a in t.get("args", []) if isinstance(a, int)]
+            sub = dict(zip(names, targs)) if len(names) == len(targs) else {}
+            return r, body, sub
+    return None
+
+
+def drain_local_iter(eng, st, fr, itv, site, each, label):
+    """Abstract loop `while let Some(x) = it.next() { each(x) }` over a crate-local iterator: `next` is inlined, the
+    states that continue are joined at the loop head until stable.  `each(state, item)` returns a list of
+    ("continue" | "break", state, value).  Returns (state after exhaustion or None, [(state, break value)])."""
+    got = local_iter_next(eng, st, itv)
+    if got is None:
+        return None
+    r, body, sub = got
+    cur = st.fork()
+    key0 = cur.key
+    exits, breaks = [], []
+    for rnd in range(6):
+        res = eng.inline(cur.fork(), fr, body, sub, [r], site)
+        if res is None:
+            return None
+        cont = []
+        for s1, v in res:
+            e, _ = as_enum(eng, s1, v)
+            if e is None:
+                return None
+            for s2, vi, fs in split_variants(eng, s1, e, None):
+                if vi == 0:
+                    s2.key = key0
+                    exits.append(s2)
+                    continue
+                for kind, s3, val in each(s2, fs[0]):
+                    s3.key = key0
+                    if kind == "break":
+                        breaks.append((s3, val))
+                    else:
+                        cont.append(s3)
+        if not cont:
+            break
+        new = cur
+        for s2 in cont:
+            new = eng.M.join_states(new, s2, label, loop_head=True)
+            new.key = key0
+        if rnd >= 3:
+            new.facts = cur.facts & new.facts
+        if eng._same_state(cur, new):
+            cur = new
+            break
+        cur = new
+    done = None
+    for s2 in exits:
+        done = s2 if done is None else eng.M.join_states(done, s2, label + ":exit")
+        done.key = key0
+    return done, breaks
+
+
+@contract(r"(^|[ :<])(std|core)::iter::Iterator::by_ref(::<.*>)?$")
+def c_iter_by_ref(eng, st, fr, f, args, site):
+    """`it.by_ref()` is `&mut it`."""
+    return [(st, args[0])] if args and isinstance(args[0], Ref) else None
+
+
+def c_collect_local_iter(eng, st, fr, f, args, site):
+    """collect() of a crate-local iterator (by value or through `by_ref()`) into Vec<_> / Result<Vec<_>, _>."""
+    rt = ret_ty(eng, site)
+    if rt is None or local_iter_next(eng, st, args[0]) is None:
+        return None
+    t = eng.T.t(rt)
+    is_res = t["k"] == "adt" and t.get("path") in ("std::result::Result", "core::result::Result")
+
+    def each(s, item):
+        if not is_res:
+            return [("continue", s, None)]
+        e, _ = as_enum(eng, s, item)
+        if e is None:
+            return [("continue", s, None), ("break", s.fork(), Top(rt, "collected_err#%d" % eng._hv()))]
+        out = []
+        for s2, vi, fs in split_variants(eng, s, e, None):
+            if vi == 1:
+                out.append(("break", s2, Enum(rt, ((1, (fs[0],)),), "collected")))
+            else:
+                out.append(("continue", s2, None))
+        return out
+
+    got = drain_local_iter(eng, st, fr, args[0], site, each, "collect:local#%d" % eng._hv())
+    if got is None:
+        return None
+    done, breaks = got
+    outs = list(breaks)
+    if done is not None:
+        vt = variant_payload_ty(eng, rt, 0) if is_res else rt
+        kind = eng.M.container_kind(vt) if vt is not None else None
+        vec = new_cont(eng, kind or "vec", Lin.sym("len(collected#%d)" % eng._hv()), None, None, vt) if kind else Top(vt, "collected#%d" % eng._hv())
+        if kind:
+            eng.declare(repr(vec.len), 0, eng.len_max)
+        outs.append((done, Enum(rt, ((0, (vec,)),), "collected") if is_res else vec))
     return outs
 
 
